@@ -44,7 +44,7 @@ def r15_const_table(u):
     return pre
 
 
-def r14_iter_any(elem_type, ensures, label=None):
+def r14_iter_any(elem_type, ensures, label=None, written_for=None):
     """R14: S.iter().any(|x| P)  ->  slice_any(S, |x: &T| -> (b: bool) ensures ENS { let b = { P }; assert(ENS); b })
     slice_any is a verified helper (prelude/slice_any.rs): result == "some element satisfies the closure's ensures".
     ENS (`b == ...`) is the closure's ghost contract, checked by Verus against the real closure body P.  The ghost
@@ -69,8 +69,9 @@ def r14_iter_any(elem_type, ensures, label=None):
             mclose = match[mopen]
             param, body = _closure(text, toks, match, mopen)
             mark = ' /*@L:%s*/' % label if label else ''
+            ens = ensures if not written_for or written_for == param else re.sub(r'(?<![\w.])%s\b' % re.escape(written_for), param, ensures)
             new = ('slice_any(%s, |%s: &%s| -> (b: bool)\n\t\tensures %s\n\t{\n\t\tlet b = %s;\n\t\tproof { assert(%s);%s }\n\t\tb\n\t})'
-                   % (recv, param, elem_type, ensures, _as_block(body), ensures, mark))
+                   % (recv, param, elem_type, ens, _as_block(body), ens, mark))
             text = text[:toks[rs].start] + new + text[toks[mclose].end:]
             u.rules['R14'] += 1
             n += 1
